@@ -191,6 +191,14 @@ type zzvKaConn struct {
 	t *zzvKaTransport
 }
 
+// LocalAddr names the in-memory link, so that a peer.Connection can be mapped to its link (Connection.LocalAddr()).
+func (c *zzvKaConn) LocalAddr() net.Addr {
+	if zc, ok := c.PeerConn.(*zzvConn); ok {
+		return zzvAddr(fmt.Sprintf("zzv-link-%d", zc.end.link.id))
+	}
+	return c.PeerConn.LocalAddr()
+}
+
 func (c *zzvKaConn) wrap(st transport.Stream, err error) (transport.Stream, error) {
 	if err != nil {
 		return nil, err
@@ -226,7 +234,7 @@ func zzvGoroutineID() int64 {
 }
 
 func (s *zzvKaStream) Write(p []byte) (int, error) {
-	if len(p) > 0 && p[0] == protocol.FrameKeepalive {
+	if len(p) > 0 && p[0] == protocol.FrameKeepalive && s.t.w != nil {
 		w, key := s.t.w, zzvRegKaKey{s.t.x, s.link}
 		w.mu.Lock()
 		if w.kaWant[key] {
@@ -1355,6 +1363,10 @@ func TestZZVRegRace(t *testing.T) {
 	m.Add(zzvNodeSpec{Name: "A", Listen: true})
 	m.Add(zzvNodeSpec{Name: "B", Listen: true})
 	w.ag["a"], w.ag["b"] = m.Nodes["A"].A, m.Nodes["B"].A
+	for _, x := range []string{"a", "b"} { // only to make connections name their link (LocalAddr)
+		n := m.Nodes[zzvRegNode(x)]
+		n.A.transports[transport.TransportWebSocket] = &zzvKaTransport{inner: n.Trans, x: x}
+	}
 	m.SetHook("peer.register.done", func(args ...any) {
 		mg, conn := args[0].(*peer.Manager), args[1].(*peer.Connection)
 		if x := w.agentOf(mg); x != "" {
@@ -1418,6 +1430,17 @@ func TestZZVRegRace(t *testing.T) {
 			w.mu.Unlock()
 			open := 0
 			for _, c := range conns {
+				// the link this connection object runs on; connections of an earlier round (a registration that
+				// finished late) are not judged
+				var lk *zzvLink
+				for _, l := range links {
+					if c.LocalAddr() == fmt.Sprintf("zzv-link-%d", l.id) {
+						lk = l
+					}
+				}
+				if lk == nil {
+					continue
+				}
 				alive := true
 				select {
 				case <-c.Done():
@@ -1433,11 +1456,7 @@ func TestZZVRegRace(t *testing.T) {
 				}
 				if c != reg[x] {
 					// a frame arriving on this connection must not be delivered
-					for _, lk := range links {
-						mine := (strings.ToLower(lk.a.name) == x) == c.IsDialer()
-						if !mine {
-							continue
-						}
+					{
 						d := lk.Dir(zzvRegNode(zzvRegOther(x)))
 						w.mu.Lock()
 						before := w.proc[x]
